@@ -80,14 +80,25 @@ def generate(seed, tier):
                     "lr": r.choice([0.01, 0.1]),
                     "time": r.random() < 0.3,
                     "with_eval": r.random() < 0.3,
+                    "with_saver": r.random() < 0.25,
+                    # the same seeded run on a freshly built model with the same parameters must give the same result
+                    "twin": r.random() < 0.3,
+                    "seed3": r.getrandbits(31),
                 }
             )
+            if ops[-1]["with_saver"] and r.random() < 0.6:
+                # resume from one of the checkpoints the saver wrote
+                ops.append({"op": "load", "m": m, "which": -r.randint(1, 2)})
+            if r.random() < 0.3:
+                ops.append({"op": "seed_sensitivity", "m": m, "s1": r.getrandbits(31), "which": -r.randint(1, 3)})
         elif x < 0.63:
             ops.append({"op": "reinit", "m": m})
         elif x < 0.66:
             ops.append({"op": "randomise", "m": m, "pseed": P.s64(r), "scale": r.choice([1.0, 3.0])})
-        elif x < 0.72:
+        elif x < 0.70:
             ops.append({"op": "save", "m": m})
+        elif x < 0.74:
+            ops.append({"op": "load", "m": m, "which": r.randrange(0, 8)})
         elif x < 0.82:
             ops.append({"op": "grad", "m": m, "which": r.choice(["gradient", "positive_phase", "batch", "exact"]), "dseed": P.s64(r), "k": r.choice([1, 3])})
         elif x < 0.88:
@@ -185,6 +196,10 @@ def run_history(plan, perturbed, lib_seed, run=None):
         else:
             qucumber.set_random_seed(sd, cpu=True, gpu=bool(c.get("seed_gpu")), quiet=True)
 
+    def mix(x):
+        # re-seeding in the middle of a history still depends on the library seed of the run
+        return (int(x) + int(lib_seed)) & 0x7FFFFFFF
+
     seed_library(lib_seed)
     local = []
     models = []
@@ -200,6 +215,8 @@ def run_history(plan, perturbed, lib_seed, run=None):
             if m is not None:
                 randomise(m, c["np_init"] + i, 2.0)
     disk = SimDisk(run)
+    bufs = {}
+    saved = [[] for _ in models]
     ev_global = {"n": 0}
     line_base = {"n": 0}
 
@@ -230,7 +247,7 @@ def run_history(plan, perturbed, lib_seed, run=None):
                     din, _, bases = build_data(dcfg, with_bases=mc["type"] != "positive")
 
                     def sequence():
-                        seed_library(op["seed2"])
+                        seed_library(mix(op["seed2"]))
                         if op["start"] == "reinit":
                             st.reinitialize_parameters()
                         else:
@@ -257,8 +274,22 @@ def run_history(plan, perturbed, lib_seed, run=None):
                     out = repr(sorted((k, repr(v)) for k, v in _flatten(res)))
                 elif kind == "fit":
                     dcfg = {"N": op["N"], "nv": mc["nv"], "dseed": op["dseed"], "form": "tensor", "basis_mode": "mixed"}
-                    din, _, bases = build_data(dcfg, with_bases=mc["type"] != "positive")
+                    din_new, _, bases_new = build_data(dcfg, with_bases=mc["type"] != "positive")
+                    # the caller keeps ONE buffer per dataset size and refills it in place for every training run
+                    key_ = (op["m"], op["N"])
+                    if key_ in bufs:
+                        din, bases = bufs[key_]
+                        din.copy_(din_new)
+                        if bases is not None:
+                            bases[...] = bases_new
+                    else:
+                        din, bases = din_new, bases_new
+                        bufs[key_] = (din, bases)
                     evd = []
+                    twin_snap = None
+                    if op.get("twin"):
+                        twin_snap = {net: {k_: v_.clone() for k_, v_ in getattr(st, net).state_dict().items()} for net in st.networks}
+                        seed_library(mix(op["seed3"]))
 
                     def handler(kind_, args, idx, nn_state, seq):
                         fire("event", ev_global["n"])
@@ -286,6 +317,12 @@ def run_history(plan, perturbed, lib_seed, run=None):
                             return v
 
                         extra = [MetricEvaluator(1, {"s": metric})]
+                    if op.get("with_saver"):
+                        from qucumber.callbacks import ModelSaver
+
+                        extra = extra + [ModelSaver(1, f"c14ck{op['m']}", "ck{}", save_initial=False, metadata={"j": j})]
+                        for e_ in range(1, op["epochs"] + 1):
+                            saved[op["m"]].append(f"/sim/cwd/c14ck{op['m']}/ck{e_}")
                     tc = {"epochs": op["epochs"], "starting_epoch": 1, "pos_bs": op["pos_bs"], "neg_bs": op["neg_bs"], "k": op["k"], "lr": op["lr"], "time": op.get("time", False)}
                     clock = SimClock(run, op["dseed"] ^ (1 if perturbed else 0), jumpy=perturbed)
                     with clock:
@@ -295,6 +332,18 @@ def run_history(plan, perturbed, lib_seed, run=None):
                         errors.append(("fit", repr(info["raised"])))
                     st.stop_training = False
                     out = (evd, mvals, state_digest(st))
+                    if twin_snap is not None and info["raised"] is None:
+                        fresh = new_state(mc["type"], mc["nv"], mc["nh"], mc.get("na"), unitary_dict=({k_: v_.clone() for k_, v_ in st.unitary_dict.items()} if mc["type"] != "positive" else None))
+                        for net in fresh.networks:
+                            getattr(fresh, net).load_state_dict(twin_snap[net])
+                        seed_library(mix(op["seed3"]))
+                        kw2 = {} if bases is None else {"input_bases": bases.copy()}
+                        cbs2 = []
+                        if op.get("with_eval"):
+                            cbs2 = [MetricEvaluator(1, {"s": lambda nn_state, **kw: float(nn_state.sample(2, num_samples=4).sum())})]
+                        fresh.fit(din.clone(), epochs=op["epochs"], pos_batch_size=op["pos_bs"], neg_batch_size=op["neg_bs"], k=op["k"], lr=op["lr"], callbacks=cbs2, **kw2)
+                        if state_digest(fresh) != state_digest(st):
+                            local.append((j, kind, "the same seeded training run gave different parameters on the long-lived model than on a freshly built model with identical parameters and data (the result depends on the object's history)"))
                 elif kind == "reinit":
                     st.reinitialize_parameters()
                     out = state_digest(st)
@@ -304,7 +353,34 @@ def run_history(plan, perturbed, lib_seed, run=None):
                 elif kind == "save":
                     path = f"/c14/m{op['m']}_{j}.pt"
                     st.save(path, {"j": j})
+                    saved[op["m"]].append(path)
                     out = len(disk.files[path])
+                elif kind == "seed_sensitivity":
+                    # seed, (re)load a checkpoint if one exists, draw 64 x n_v fair coins - under two seeds and twice under the first
+                    path = None
+                    if saved[op["m"]]:
+                        cand = saved[op["m"]][op["which"] % len(saved[op["m"]])]
+                        path = cand if cand in disk.files else None
+
+                    def seq(sd):
+                        seed_library(sd)
+                        if path is not None:
+                            st.load(path)
+                        return tdigest(st.sample(0, num_samples=64))
+
+                    s1 = mix(op["s1"])
+                    d1, d2, d1b = seq(s1), seq((s1 + 1) & 0x7FFFFFFF), seq(s1)
+                    if d1 != d1b:
+                        local.append((j, kind, "seed, load, draw repeated under the same seed gave different draws"))
+                    if d1 == d2:
+                        local.append((j, kind, "seed, load a checkpoint, draw: two different library seeds gave identical draws" if path else "two different library seeds gave identical draws"))
+                    out = (d1, path)
+                elif kind == "load":
+                    if saved[op["m"]]:
+                        path = saved[op["m"]][op["which"] % len(saved[op["m"]])]
+                        if path in disk.files:
+                            st.load(path)
+                    out = state_digest(st)
                 elif kind == "grad":
                     dcfg = {"N": 4, "nv": mc["nv"], "dseed": op["dseed"], "form": "tensor", "basis_mode": "mixed"}
                     din, _, bases = build_data(dcfg, with_bases=mc["type"] != "positive")
@@ -345,7 +421,8 @@ def run_history(plan, perturbed, lib_seed, run=None):
                 readonly.append((j, kind, f"{kind} ({op.get('which') or op.get('obs') or ''}) changed model parameters"))
             digests.append((kind, out))
         fire("op", len(plan["ops"]))
-    return {"digests": digests, "readonly": readonly, "errors": errors, "fired": fired, "local": local}
+        final = [tdigest(m_.sample(0, num_samples=64)) if m_ is not None else None for m_ in models]
+    return {"final_draws": final, "digests": digests, "readonly": readonly, "errors": errors, "fired": fired, "local": local}
 
 
 def _eval(st, mc, op, np, torch, tdigest):
@@ -477,7 +554,7 @@ def execute(plan):
     for (j, kind, msg) in A["readonly"]:
         run.violate("14-readonly", f"op {j}: {msg}", op=kind)
     for (j, kind, msg) in A.get("local", []):
-        run.violate("14-repro", f"op {j}: {msg}", op=kind)
+        run.violate("14-seed" if "different library seeds" in msg else "14-repro", f"op {j}: {msg}", op=kind)
     # different library seed -> different draws
     import torch
 
@@ -490,6 +567,14 @@ def execute(plan):
         st = new_state("positive", 4, 4)
         return tdigest(st.rbm_am.weights.data), tdigest(st.sample(0, num_samples=64))
 
+    if any(op["op"] == "load" for op in plan["ops"]) or c.get("seed_gpu"):
+        # the whole history again under another library seed: the 64 x n_v fair coins drawn at its end must differ
+        Cc = run_history(plan, False, c["lib_seed"] + 1, run)
+        if not Cc["errors"] and not A["errors"]:
+            same = [i for i, (x_, y_) in enumerate(zip(A["final_draws"], Cc["final_draws"])) if x_ is not None and x_ == y_]
+            if same:
+                run.violate("14-seed", f"after the same history under two different library seeds the final uniform draws of model(s) {same} are identical", op="final-draw")
+        run.probes["third_run_other_seed"] += 1
     p1, p2, p3 = probe(c["lib_seed"]), probe(c["lib_seed"] + 1), probe(c["lib_seed"])
     if p1 != p3:
         run.violate("14-repro", "re-seeding with the same seed did not reproduce initial weights / a 64-row uniform draw", op="seed-probe")
@@ -522,7 +607,7 @@ def execute(plan):
             run.violate("14-repro", f"fresh interpreter under PYTHONHASHSEED={c['hashseed']} with foreign RNGs perturbed: first divergent operation is #{i - 1} ({kind})", op=kind, fresh=True)
     for s in B["fired"]["sites"]:
         run.fault("foreign_rng", s.split(":")[0] + (":" + s.split(":", 1)[1] if s.startswith("line") else ""))
-    consuming = sum(1 for op in plan["ops"] if op["op"] in ("reseed_repeat", "sample", "sample_space", "stats", "fit", "reinit") or (op["op"] == "grad" and op["which"] == "batch"))
+    consuming = sum(1 for op in plan["ops"] if op["op"] in ("seed_sensitivity", "reseed_repeat", "sample", "sample_space", "stats", "fit", "reinit") or (op["op"] == "grad" and op["which"] == "batch"))
     run.trace = trace + [sorted(set(s.split(":")[0] for s in B["fired"]["sites"]))]
     run.nontrivial = consuming >= 2 and B["fired"]["n"] >= 1
     run.sim["ops"] += 2 * len(plan["ops"])
